@@ -78,9 +78,8 @@ def mods():
 
 # ---------------------------------------------------------------- 1. moments on tables
 def table_cases(r, quick):
-    """(lo, hi, h, curve parameters) for the stub estimator.  Grids are short and dyadic
-    (the exact model works in un-reduced rationals); N even exercises the last-interval
-    correction of scipy's simpson."""
+    """(lo, hi, h, curve parameters) for the stub estimator; N even exercises the
+    last-interval correction of scipy's simpson."""
     out = []
     shifts = [0.0, 1024.0, float(2 ** 20), 1e6]
     scales = [1.0, 2.0 ** -10, 2.0 ** 10]
@@ -88,8 +87,8 @@ def table_cases(r, quick):
     for k in range(n_cases):
         sc = r.choice(scales)
         sh = shifts[k % 4] * (sc if r.random() < 0.5 else 1.0)
-        N = [5, 6, 8, 9, 7, 10][k % 6] if quick else r.randint(4, 13)
-        delta = sc * r.choice([1.0, 0.75, 0.5])
+        N = [5, 6, 8, 9, 13, 17, 20, 24][k % 8] if quick else r.randint(4, 48)
+        delta = sc * r.choice([1.0, 0.75, 0.5, 0.3]) * 8.0 / (N - 1)
         lo = sh - delta * ((N - 1) // 2) - sc * r.choice([0.0, 0.25])
         hi = lo + delta * (N - 1)
         h = 5.0 * (hi - lo) / (N + 0.5)
@@ -108,7 +107,7 @@ def curve(par):
         p = p * (1 + 0.2 * par["skew"] * z / (1 + z * z))
         area = math.sqrt(2 * math.pi) * (1 + par["w2"] * 0.5)
         p = par["mass"] * p / area
-        return np.round(p * 2.0 ** 12) / (2.0 ** 12 * sc)      # short mantissas keep the exact model cheap
+        return np.round(p * 2.0 ** 30) / (2.0 ** 30 * sc)
     return fn
 
 
@@ -473,6 +472,7 @@ def run(rep: C.Report, tier: str) -> int:
     if not quick:
         plan += [("kde", "lognormal", 12000), ("uni", "t5", 800), ("uni", "normal", 20000), ("kde", "gamma", 300)]
     n_runs = 0
+    meta_viol = []
     for j, (est, kind, n) in enumerate(plan):
         tr = TRANSFORMS if not quick else [TRANSFORMS[(j + i) % len(TRANSFORMS)] for i in (0, 1, 2)] + [TRANSFORMS[1]]
         tr = list(dict.fromkeys(tr))
@@ -482,12 +482,12 @@ def run(rep: C.Report, tier: str) -> int:
         rep.count(f"[R] {est}/{kind}")
         rep.case(("meta", est, kind, n), nontrivial=True)
         if bad:
-            rep.violation("C19/property", bad[0] + (f" (+{len(bad) - 1} more)" if len(bad) > 1 else ""),
-                          {"check": "metamorphic", "estimator": est, "kind": kind, "n": n, "stream": stream,
-                           "transforms": tr, "all": bad[:8]}, True)
+            meta_viol.append((bad[0] + (f" (+{len(bad) - 1} more)" if len(bad) > 1 else ""),
+                              {"check": "metamorphic", "estimator": est, "kind": kind, "n": n, "stream": stream,
+                               "transforms": tr, "all": bad[:8]}))
     bad = family_affine_failures(C.rng_for(PROP, "family-affine"))
     if bad:
-        rep.violation("C19/property", bad[0], {"check": "family-affine"}, True)
+        meta_viol.append((bad[0], {"check": "family-affine"}))
     rep.coverage["metamorphic_fits_R"] = n_runs
     lap("[R] metamorphic runs")
 
@@ -556,6 +556,13 @@ def run(rep: C.Report, tier: str) -> int:
             rep.violation("C19/correspondence", f"__hdi_cost returned {got} ({err}); the model gives a different value",
                           {"theorem_or_correspondence": "Model.Moments.hdi_cost_q",
                            "inputs": {"w": str(w), "f": str(f), **{n: str(v) for n, v in vals.items()}}}, False)
+    # the runtime tests are reported after the exact disagreements (one per estimator)
+    done = set()
+    for what, rp in meta_viol:
+        key = rp.get("estimator", rp["check"])
+        if key not in done:
+            done.add(key)
+            rep.violation("C19/property", what, rp, True)
     lap("search")
     pool.shutdown()
 
